@@ -1482,15 +1482,28 @@ func runConc(r *common.Rand, delayUS int, rp map[string]string) {
 	}
 	rd := bufio.NewReader(out)
 	ready := make(chan bool, 1)
+	finished := make(chan string, 1) // the child's SYNC verdict once all its calls have returned
 	go func() {
+		isReady := false
+		sync := "child exited without a verdict"
 		for {
 			l, err := rd.ReadString('\n')
-			if strings.HasPrefix(l, "READY") {
+			switch {
+			case strings.HasPrefix(l, "READY"):
+				isReady = true
 				ready <- true
+			case strings.HasPrefix(l, "SYNC "):
+				sync = strings.TrimSpace(l[5:])
+			case strings.HasPrefix(l, "DONE"):
+				finished <- sync
 				return
 			}
 			if err != nil {
-				ready <- false
+				if !isReady {
+					ready <- false
+				} else {
+					finished <- sync
+				}
 				return
 			}
 		}
@@ -1509,14 +1522,33 @@ func runConc(r *common.Rand, delayUS int, rp map[string]string) {
 		run.Count("conc-child-not-ready")
 		return
 	}
-	time.Sleep(time.Duration(delayUS) * time.Microsecond)
-	cmd.Process.Kill()
-	cmd.Wait()
-	run.Count("conc-kills")
 	id := run.NewID()
 	rep := map[string]any{"script": sc, "conc_delay_us": delayUS}
 	fail := func(sig, f string, a ...any) {
 		run.OracleFail(id, sig, fmt.Sprintf(f, a...)+fmt.Sprintf(" (concurrent callers, killed %d us after release)", delayUS), rep)
+	}
+	if delayUS < 0 {
+		// not killed: all calls return (watchdog: a wedge is a failure within seconds), and then
+		// index.json is the index of the resolver (C10_conc_quiescent_synced)
+		select {
+		case verdict := <-finished:
+			cmd.Wait()
+			run.Count("conc-quiescent")
+			if verdict != "ok" {
+				fail("conc-quiescent-unsynced", "all concurrent calls have returned and %s", verdict)
+			}
+		case <-time.After(30 * time.Second):
+			cmd.Process.Kill()
+			cmd.Wait()
+			fail("conc-wedged", "the concurrent calls did not return within 30 s")
+			run.Case(id, "C "+common.Hex(sc.JSON()), "CONC")
+			return
+		}
+	} else {
+		time.Sleep(time.Duration(delayUS) * time.Microsecond)
+		cmd.Process.Kill()
+		cmd.Wait()
+		run.Count("conc-kills")
 	}
 	byHex := map[string]int{}
 	for _, b := range sc.Blobs {
@@ -1718,6 +1750,9 @@ func main() {
 	// concurrent callers, killed at an arbitrary moment
 	for i := 0; i < run.Scale(40, 400); i++ {
 		runConc(r, r.Intn(run.Scale(6000, 12000)), nil)
+		if i%4 == 0 {
+			runConc(r, -1, nil) // run to completion: resolver and index.json agree
+		}
 	}
 	// AutoSaveIndex off: only SaveIndex writes index.json
 	for h := 0; h < run.Scale(1, 8); h++ {
@@ -1776,6 +1811,7 @@ func checkFloors() {
 	need("final:gc", run.Scale(4, 30))
 	need("final:init", 1)
 	need("conc-kills", run.Scale(30, 300))
+	need("conc-quiescent", run.Scale(8, 80))
 	need("autosave-off-scripts", run.Scale(8, 60))
 	need("final:reopen", run.Scale(3, 20))
 	need("composite-finals-with-cascade", run.Scale(2, 30))
